@@ -89,6 +89,7 @@ impl SearchAlgorithm {
                         "attempting to run KSP algorithm without destination",
                     ))
                 })?;
+                require_forward(direction)?;
                 let sim_fn = similarity.as_ref().cloned().unwrap_or_default();
                 let term_fn = termination.as_ref().cloned().unwrap_or_default();
                 let ksp_query = KspQuery::new(src_id, dst_id, query, *k)?;
@@ -105,6 +106,7 @@ impl SearchAlgorithm {
                         "attempting to run KSP algorithm without destination",
                     ))
                 })?;
+                require_forward(direction)?;
                 let sim_fn = similarity.as_ref().cloned().unwrap_or_default();
                 let term_fn = termination.as_ref().cloned().unwrap_or_default();
                 let ksp_query = KspQuery::new(src_id, dst_id, query, *k)?;
@@ -145,6 +147,17 @@ impl SearchAlgorithm {
                 termination: _,
             } => run_edge_oriented(src_id, dst_id_opt, query, direction, self, search_instance),
         }
+    }
+}
+
+/// the k-shortest-paths algorithms search from the source towards the target only: a reverse
+/// query must not be answered as if it were a forward query
+fn require_forward(direction: &Direction) -> Result<(), SearchError> {
+    match direction {
+        Direction::Forward => Ok(()),
+        Direction::Reverse => Err(SearchError::BuildError(String::from(
+            "k-shortest-paths algorithms run in forward direction only",
+        ))),
     }
 }
 
